@@ -164,7 +164,7 @@ class SpendingStatusNotificationRequest(SpendingStatusNotification):
         AvpGenDef("origin_state_id", AVP_ORIGIN_STATE_ID),
         AvpGenDef("oc_supported_features", AVP_OC_SUPPORTED_FEATURES, type_class=OcSupportedFeatures),
         AvpGenDef("policy_counter_status_report", AVP_TGPP_POLICY_COUNTER_STATUS_REPORT, VENDOR_TGPP, type_class=PolicyCounterStatusReport),
-        AvpGenDef("sn_request_type", AVP_TGPP_SN_REQUEST_TYPE),
+        AvpGenDef("sn_request_type", AVP_TGPP_SN_REQUEST_TYPE, VENDOR_TGPP),
         AvpGenDef("proxy_info", AVP_PROXY_INFO, type_class=ProxyInfo),
         AvpGenDef("route_record", AVP_ROUTE_RECORD),
     )
